@@ -169,7 +169,45 @@ var predIRIs = []string{"http://schema.org/name", "http://schema.org/knows", "ht
 	"http://www.w3.org/2000/01/rdf-schema#label", "http://www.w3.org/1999/xhtml/vocab#license", "http://www.w3.org/1999/xhtml/vocab#role",
 	"http://www.w3.org/2007/05/powder-s#describedby", "urn:p:x", "http://schema.org/url", "http://ogp.me/ns#title"}
 
-var vocabs = []string{"http://schema.org/", "http://vocab.example/ns#", "http://xmlns.com/foaf/0.1/", "http://p.example/"}
+// hostVocab: the one IRI the RDFa decoder treats specially as a vocabulary (htmlrdfa `HostDefaultVocabulary`, the default
+// of HTML+RDFa rule 1: terms are NOT concatenated to it while nobody declared it). main() checks this constant against the
+// T2 fact Gen.HtmlFacts.hostDefaultVocabulary (go/ast over encoding/htmlrdfa/decoder.go) through the driver op `html.hostvocab`.
+// An author-written vocab="<hostVocab>" is a declared vocabulary like any other (RDFa Core 7.4.3).
+const hostVocab = "http://www.w3.org/1999/xhtml/vocab#"
+
+var vocabs = []string{"http://schema.org/", "http://vocab.example/ns#", "http://xmlns.com/foaf/0.1/", "http://p.example/", hostVocab}
+
+// pickVocab: a vocabulary IRI for @vocab; the special value gets extra weight
+func pickVocab(r *vh.Rng) string {
+	if r.Chance(30) {
+		return hostVocab
+	}
+	return vh.Pick(r, vocabs[:4])
+}
+
+// IRIs of the host default vocabulary whose local part is NOT a predefined term of the initial context
+var hostVocabPlain = []string{hostVocab + "up", hostVocab + "chapter"}
+
+// Family "prefix token outside the scope that declares it": absolute IRIs whose scheme is the name of a prefix that some
+// element of the document may declare (declPrefixes). Written out in full where the prefix is not in scope they denote
+// themselves (RDFa Core 7.4.2: a value that is not a CURIE is an IRI); where it is in scope the same text is a CURIE.
+var tokenPreds = []string{"ex:q", "p:rel", "o:x", "wiki:Help", "ex:p1", "p:deep/er/q"}
+var tokenRes = []string{"o:x", "ex:thing", "p:deep/er/x", "wiki:Main_Page", "o:"}
+
+// tokenScheme: the declarable prefix name that is the scheme of iri ("" when there is none)
+func tokenScheme(iri string) string {
+	i := strings.IndexByte(iri, ':')
+	if i <= 0 {
+		return ""
+	}
+	sc := strings.ToLower(iri[:i])
+	for _, d := range declPrefixes {
+		if strings.ToLower(d[0]) == sc {
+			return sc
+		}
+	}
+	return ""
+}
 
 var lexes = []string{"", "x", "hello world", "Größe ✓", "a<b>&c", "say \"hi\" 'there'", "line1\nline2", " lead and trail ", "tab\there",
 	"&amp; literal", "<!-- not a comment -->", "</span>", "]]>", "cr\rhere", "42", "日本語", "a b", "emoji 😀"}
@@ -225,10 +263,23 @@ type gen struct {
 	base string
 	// spelling hints: graph IRI -> relative reference that resolves to it
 	rel map[string]string
+	// tok: the RDFa graph uses IRIs whose scheme is a declarable prefix name (tokenPreds / tokenRes)
+	tok bool
+	// histogram keys collected by rdfaChoices (merged into the report by the caller)
+	hist []string
+}
+
+func (g *gen) pred() Term {
+	if g.tok && g.r.Chance(40) {
+		return I(vh.Pick(g.r, tokenPreds))
+	}
+	return I(vh.Pick(g.r, predIRIs))
 }
 
 func (g *gen) resource(allowB bool) Term {
 	switch {
+	case g.tok && g.r.Chance(15):
+		return I(vh.Pick(g.r, tokenRes))
 	case allowB && g.r.Chance(25):
 		return B(fmt.Sprintf("b%d", g.r.Intn(4)))
 	case g.base != "" && g.r.Chance(35):
@@ -262,7 +313,7 @@ func (g *gen) rdfaGraph() []Triple {
 	var out []Triple
 	cur := g.resource(true)
 	for len(out) < n {
-		p := I(vh.Pick(g.r, predIRIs))
+		p := g.pred()
 		switch {
 		case g.r.Chance(12) && cur.Kind == 'I':
 			out = append(out, Triple{cur, I(rdfType), I(vh.Pick(g.r, absIRIs))})
@@ -279,7 +330,7 @@ func (g *gen) rdfaGraph() []Triple {
 		if g.r.Chance(12) {
 			// the same subject and object under a second predicate (property="p q")
 			last := out[len(out)-1]
-			out = append(out, Triple{last.S, I(vh.Pick(g.r, predIRIs)), last.O})
+			out = append(out, Triple{last.S, g.pred(), last.O})
 		}
 		if g.r.Chance(30) {
 			cur = g.resource(true)
@@ -609,15 +660,61 @@ func (g *gen) planBlock(gr []Triple, i int, maxTake int) blockPlan {
 	return p
 }
 
+// graphSchemes: the declarable prefix names that occur as the scheme of an IRI of the triples
+func graphSchemes(ts []Triple) map[string]bool {
+	m := map[string]bool{}
+	for _, t := range ts {
+		for _, x := range []Term{t.S, t.P, t.O} {
+			if x.Kind == 'I' {
+				if sc := tokenScheme(x.V); sc != "" {
+					m[sc] = true
+				}
+			}
+			if x.Kind == 'L' {
+				if sc := tokenScheme(x.DT); sc != "" {
+					m[sc] = true
+				}
+			}
+		}
+	}
+	return m
+}
+
+// declarable: the prefix declarations whose name is not in `not`; those whose name is in `prefer` come first
+func declarable(not, prefer map[string]bool) (preferred, others [][2]string) {
+	for _, d := range declPrefixes {
+		n := strings.ToLower(d[0])
+		switch {
+		case not[n]:
+		case prefer[n]:
+			preferred = append(preferred, d)
+		default:
+			others = append(others, d)
+		}
+	}
+	return
+}
+
 // rdfaChoices: skeleton token and pattern tokens for graph gr.
+//
+// Prefix scoping: a prefix is declared on the skeleton (html, body: in scope everywhere) or on the wrapper of one block
+// (in scope in that block only). When the graph has IRIs whose scheme is a declarable prefix name (family "prefix token
+// outside the scope that declares it") the skeleton never declares that name (the graph would not be expressible), a
+// block that has such an IRI itself does not declare it either, and the OTHER blocks declare it with extra weight: the
+// document then has the token as a CURIE prefix in one sibling subtree and as an IRI scheme in another, in either order.
 func (g *gen) rdfaChoices(gr []Triple) (string, []string) {
 	env := prefixEnv(initialPrefixes).clone()
+	used := graphSchemes(gr)
 	var hp, hl, bp, bl *string
 	declare := func() *string {
 		n := 1 + g.r.Intn(2)
+		_, cands := declarable(used, nil)
+		if len(cands) == 0 {
+			return nil
+		}
 		var ds [][2]string
 		for i := 0; i < n; i++ {
-			d := vh.Pick(g.r, declPrefixes)
+			d := vh.Pick(g.r, cands)
 			ds = append(ds, d)
 			env[strings.ToLower(d[0])] = d[1]
 		}
@@ -638,6 +735,11 @@ func (g *gen) rdfaChoices(gr []Triple) (string, []string) {
 	skel := "K" + optHex(hp) + "/" + optHex(hl) + "/" + optHex(bp) + "/" + optHex(bl)
 
 	var pats []string
+	type blockScope struct {
+		declares string          // prefix name declared on the block's wrapper ("" = none)
+		schemes  map[string]bool // declarable names used as IRI schemes by the block's triples
+	}
+	var scopes []blockScope
 	i := 0
 	for i < len(gr) {
 		vocab := ""
@@ -647,14 +749,29 @@ func (g *gen) rdfaChoices(gr []Triple) (string, []string) {
 			voc = 1
 		}
 		plan := g.planBlock(gr, i+voc, 2)
+		own := graphSchemes(gr[i : i+voc+plan.take+1])
 		lenv := env
 		var pfx *string
-		if g.r.Chance(20) {
-			lenv = env.clone()
-			d := vh.Pick(g.r, declPrefixes)
-			lenv[strings.ToLower(d[0])] = d[1]
-			pfx = sp(prefixAttr(g.r, [][2]string{d}))
+		declared := ""
+		pct := 20
+		if len(used) > 0 {
+			pct = 50
 		}
+		if g.r.Chance(pct) {
+			preferred, others := declarable(own, used)
+			cands := append(append([][2]string{}, preferred...), others...)
+			if len(preferred) > 0 && g.r.Chance(75) {
+				cands = preferred
+			}
+			if len(cands) > 0 {
+				lenv = env.clone()
+				d := vh.Pick(g.r, cands)
+				declared = strings.ToLower(d[0])
+				lenv[declared] = d[1]
+				pfx = sp(prefixAttr(g.r, [][2]string{d}))
+			}
+		}
+		scopes = append(scopes, blockScope{declared, own})
 		var wlang *string
 		if g.r.Chance(12) {
 			wlang = sp(vh.Pick(g.r, langs))
@@ -674,12 +791,37 @@ func (g *gen) rdfaChoices(gr []Triple) (string, []string) {
 					o = g.altRes(lenv, t.O, plan.oHref[k])
 				}
 			}
-			alts = append(alts, optHex(g.altRes(lenv, t.S, plan.sHref[k]))+"~"+optHex(g.altPred(lenv, vocab, t.P.V))+"~"+optHex(o)+"~"+optHex(dt))
+			ps := g.altPred(lenv, vocab, t.P.V)
+			if vocab == hostVocab && ps != nil && !strings.Contains(*ps, ":") {
+				if _, predefined := terms11[strings.ToLower(*ps)]; predefined {
+					g.hist = append(g.hist, "rdfa-writer:vocab=host-default term=predefined")
+				} else {
+					g.hist = append(g.hist, "rdfa-writer:vocab=host-default term=plain")
+				}
+			}
+			alts = append(alts, optHex(g.altRes(lenv, t.S, plan.sHref[k]))+"~"+optHex(ps)+"~"+optHex(o)+"~"+optHex(dt))
 		}
-		pat := fmt.Sprintf("P%d.%d.%d.%d.%d/%s/%s/%s/%s/%s", plan.take+voc, plan.shape, g.r.Intn(6)*g.r.Intn(2), g.r.Intn(8), voc,
+		pat := fmt.Sprintf("P%d.%d.%d.%d.%d.%d/%s/%s/%s/%s/%s", plan.take+voc, plan.shape, g.r.Intn(6)*g.r.Intn(2), g.r.Intn(8), voc, g.r.Intn(4)*g.r.Intn(2),
 			natList(plan.form), natList(g.ints(8, 36)), optHex(pfx), optHex(wlang), strings.Join(alts, "+"))
 		pats = append(pats, pat)
 		i += plan.take + 1 + voc
+	}
+	// which scoping situations the document has (as asked for; a block whose candidate does not validate is written
+	// canonically, without its wrapper)
+	for j, b := range scopes {
+		for sc := range b.schemes {
+			where := "never"
+			for k, c := range scopes {
+				if c.declares == sc && k < j {
+					where = "earlier-sibling"
+					break
+				}
+				if c.declares == sc && k > j && where == "never" {
+					where = "later-sibling"
+				}
+			}
+			g.hist = append(g.hist, "rdfa-writer:prefix token as IRI scheme, declared by="+where)
+		}
 	}
 	return skel, pats
 }
